@@ -7,6 +7,7 @@ import KiraModel.Exec.SuiteParam
 import KiraModel.Exec.SuiteChan
 import KiraModel.Exec.SuiteStorage
 import KiraModel.Exec.SuiteLife
+import KiraModel.Exec.SuiteDeliver
 
 open K.Exec
 
@@ -26,6 +27,7 @@ def suiteOf (name : String) : Option Suite :=
   | "chan" => some { σ := ChanState, init := {}, step := withSeq chanStep }
   | "storage" => some { σ := StoState, init := {}, step := withSeq storageStep }
   | "life" => some { σ := LifeState, init := {}, step := withSeq lifeStep }
+  | "deliver" => some { σ := DeliverState, init := {}, step := withSeq deliverStep }
   | _ => none
 
 def tokens (line : String) : List String :=
